@@ -114,7 +114,9 @@ class LiveServer:
     """nauyaca.server.start_server on 127.0.0.1:<ephemeral>."""
 
     def __init__(self, document_root, backend="stdlib", host="127.0.0.1", config_kwargs=None,
-                 start_kwargs=None, server_ident=None, use_own_cert=True):
+                 start_kwargs=None, server_ident=None, use_own_cert=True, config=None):
+        from pathlib import Path
+
         from nauyaca.server.config import ServerConfig
 
         self.backend = backend
@@ -126,7 +128,14 @@ class LiveServer:
         if backend == "pyopenssl":
             ck["require_client_cert"] = True
         ck.update(config_kwargs or {})
-        self.config = ServerConfig(**ck)
+        if config is not None:
+            # a configuration object built elsewhere (e.g. ServerConfig.from_toml): only host/port/cert are filled in
+            self.config = config
+            config.host = host
+            if use_own_cert and config.certfile is None:
+                config.certfile, config.keyfile = Path(ident.certfile), Path(ident.keyfile)
+        else:
+            self.config = ServerConfig(**ck)
         sk = dict(log_level="CRITICAL", enable_rate_limiting=False)
         sk.update(start_kwargs or {})
         self.start_kwargs = sk
